@@ -1,0 +1,7 @@
+//go:build verif
+
+package p2pke
+
+// VerifNewTimer exposes the unexported constructor of Timer to the verification harness
+// (/verif/harness/cmd/timerreplay).  Constructor export only: nothing else is added.
+func VerifNewTimer(fn func()) *Timer { return newTimer(fn) }
